@@ -63,6 +63,7 @@ let print_obs o =
   | OStep k -> Printf.printf "STEP %d\n" (n k)
   | OEv e -> print_ev e
   | ORes r -> Printf.printf "RES %d\n" (i r)
+  | OCmp r -> Printf.printf "CMP %s\n" (String.concat " " (List.map (fun b -> if b then "1" else "0") r))
   | ONull (s, sz) -> Printf.printf "NULL %d %d\n" (n s) (i sz)
   | OGone s -> Printf.printf "GONE %d\n" (n s)
   | OVec (s, sz, cap, cons, aid, bid, db, de, fixed, elems) ->
@@ -106,6 +107,8 @@ let parse_op params toks =
   | "moveassign" :: [d; s] -> OpMoveAssign (nat d, nat s)
   | "swap" :: [a; b] -> OpSwap (nat a, nat b)
   | "junk" :: [b] -> OpJunk (z b)
+  | "cmpvec" :: [a; b] -> OpCmpVec (nat a, nat b)
+  | "cmpref" :: [a; i; b; j] -> OpCmpRef (nat a, z i, nat b, z j)
   | "observe" :: [s] -> OpObserve (nat s)
   | t :: _ -> failwith ("unknown op " ^ t)
   | [] -> failwith "empty"
@@ -140,6 +143,12 @@ let () =
   Printf.printf "SA %d\n" (int_of_z (sA l));
   Printf.printf "LARGEST %s\n" (zs (largest l));
   Printf.printf "TRAILS %s\n" (zs (trails l));
+  let ridx r = String.concat " " (List.map (function RSkip -> "S" | RManual -> "M" | REnd e -> string_of_int (int_of_nat e)) r) in
+  Printf.printf "RUNS asg %s\n" (ridx (runs_asg l));
+  Printf.printf "RUNS swp %s\n" (ridx (runs_swp l));
+  Printf.printf "RUNS eq %s\n" (ridx (runs_eq l));
+  Printf.printf "RUNS lex %s\n" (ridx (runs_lex l));
+  Printf.printf "PADFREE %d\n" (if padfree l then 1 else 0);
   List.iter (function
     | `Static f ->
         let (sz, st) = esize l (List.map z_of_int f) in
